@@ -31,7 +31,7 @@ fn sheet_values() -> Grid {
 
 fn build(ch: &mut Chooser, fmt: &str) -> Case {
     let nsheets = 1 + ch.choose("sheet-count", 2);
-    let sheets: Vec<String> = (0..nsheets).map(|i| ["Data", "Second & last"][i].to_string()).collect();
+    let sheets: Vec<String> = (0..nsheets).map(|i| ["Zone data", "Second & last"][i].to_string()).collect(); // workbook order is not name order
     let regions = if fmt == "xlsx" { XLSX_REGIONS } else { XLS_REGIONS };
     let mut merges: Vec<Vec<Rg>> = vec![];
     for _ in 0..nsheets {
@@ -71,7 +71,7 @@ fn build(ch: &mut Chooser, fmt: &str) -> Case {
             }
             b.sheets.push(sh);
         }
-        xlsx::write(&b, &xlsx::XEnc { prefix: ch.flag("xlsx.prefix"), indent: ch.flag("xlsx.indented"), ..Default::default() })
+        xlsx::write(&b, &xlsx::XEnc { prefix: ch.flag("xlsx.prefix"), indent: ch.flag("xlsx.indented"), rels_target_first: ch.flag("xlsx.rels-target-before-type"), ..Default::default() })
     } else {
         let mut b = biff8::BBook::default();
         for (i, n) in sheets.iter().enumerate() {
